@@ -1,1 +1,499 @@
+/* unit hms - harris_michael_list_based_set (C08, C09).  Declarations, guard contract stubs, ghost state, representation
+ * invariant (builder + checker) and harnesses.  All function bodies come from lowered.h (extracted from /repo on every run). */
+#include <stdint.h>
+#include <stddef.h>
+#ifndef L
+#define L 3                     /* shape: at most L nodes that were ever inserted, plus one slot for operator new */
+#endif
+#define NP (L + 1)
+typedef uintptr_t mptr;         /* marked_ptr<node,1> / concurrent_ptr cell: node address | delete mark (bit 0) */
+typedef int hkey;               /* Key = int, values symbolic */
+struct node { hkey key; mptr next; };
+struct hms { mptr head; };
+struct guard { mptr ptr; };     /* guard_ptr: only written by the contract stubs below */
+struct find_info { mptr* prev; mptr next; struct guard cur; struct guard save; };
+struct iter { struct hms* list; struct find_info info; };
+
+/* monitors (declared before xv.h) */
+static void mon_access(const void* addr);
+static void mon_cas(const void* addr, mptr e, mptr d, _Bool ok, int o);
+static void mon_store(const void* addr, mptr v, int o);
+#define XV_ON_LOAD(addr, val, order) mon_access((const void*)(addr))
+#define XV_ON_STORE(addr, val, order) (mon_access((const void*)(addr)), mon_store((const void*)(addr), (mptr)(val), (order)))
+#define XV_ON_CAS(addr, e, d, ok, order) (mon_access((const void*)(addr)), mon_cas((const void*)(addr), (mptr)(e), (mptr)(d), (ok), (order)))
 #include "xv.h"
+int xv_threw; uint64_t xv_clock, xv_rmw_old; _Bool xv_cas_ok;
+
+/* ------------------------------------------------------------------ heap model + ghost state */
+struct node pool[NP]; struct hms the_set; struct node xv_dummy;
+_Bool g_alloc[NP];              /* memory of the node is allocated (not yet freed by the reclaimer / delete) */
+_Bool g_pub[NP];                /* the node was published (linked into the list at some time) */
+unsigned char g_retired[NP];    /* number of reclaim() calls on the node */
+signed char g_cnt[NP];          /* number of guards of this handle protecting the node */
+_Bool g_unsafe;                 /* a dereference touched a node that is neither protected by a guard nor private */
+unsigned g_new, g_delete; _Bool g_bad_delete; unsigned in_newslot;
+#define NADDR(i) ((mptr)((i) + 1) << 4)
+#define NIDX(p) ((size_t)(((p) >> 4) - 1))
+#define MP_mark(x) ((x) & (mptr)1)
+#define MP_get(x) ((x) & ~(mptr)1)
+#define MP_make(p, m) ((mptr)(p) | (mptr)(m))
+#define KEY_LESS(a, b) ((a) < (b))          /* compare = std::less<int> */
+#define XV_BACKOFF() ((void)0)
+
+static _Bool node_safe(size_t i) { return i < NP && g_alloc[i] && (g_cnt[i] > 0 || !g_pub[i]); }
+static size_t deref_idx(mptr p) {
+  size_t i = NIDX(MP_get(p));
+  if (MP_get(p) == 0 || !node_safe(i)) g_unsafe = 1;
+  return i < NP ? i : 0;
+}
+static struct node* nochk(mptr p) { size_t i = NIDX(MP_get(p)); return (MP_get(p) != 0 && i < NP) ? &pool[i] : &xv_dummy; }
+#define GDEREF(g) (&pool[deref_idx((g).ptr)])
+#define NDEREF(n) (&pool[deref_idx(n)])
+#define NOCHK_DEREF(g) (nochk((g).ptr))
+static void mon_access(const void* addr) {
+  if (__CPROVER_POINTER_OBJECT(addr) == __CPROVER_POINTER_OBJECT(pool)) {
+    size_t i = __CPROVER_POINTER_OFFSET(addr) / sizeof(struct node);
+    if (!node_safe(i)) g_unsafe = 1;
+  } else if (addr != (const void*)&the_set.head) g_unsafe = 1;
+}
+
+/* operator new / delete on nodes */
+static mptr n_new(hkey k) {
+  size_t s = in_newslot; g_new++;
+  g_alloc[s] = 1; g_pub[s] = 0; g_retired[s] = 0; pool[s].key = k; pool[s].next = 0;
+  return NADDR(s);
+}
+static void n_delete(mptr n) {
+  size_t i = NIDX(n); g_delete++;
+  if (i >= NP || !g_alloc[i] || g_pub[i] || g_cnt[i] != 0) { g_bad_delete = 1; return; }
+  g_alloc[i] = 0; pool[i].key = nondet_int(); pool[i].next = nondet_uptr();
+}
+#define N_NEW(k) n_new(k)
+#define N_DELETE(n) n_delete(n)
+
+/* ------------------------------------------------------------------ guard_ptr contract stubs (proved per reclaimer elsewhere) */
+static void g_protect(mptr p) { size_t i = NIDX(MP_get(p)); if (MP_get(p) != 0 && i < NP) g_cnt[i]++; }
+static void g_unprotect(mptr p) { size_t i = NIDX(MP_get(p)); if (MP_get(p) != 0 && i < NP) g_cnt[i]--; }
+static void g_reset(struct guard* g) { g_unprotect(g->ptr); g->ptr = 0; }
+static void g_copy(struct guard* d, struct guard* s) { if (d == s) return; mptr v = s->ptr; g_reset(d); d->ptr = v; g_protect(v); }
+static void g_move(struct guard* d, struct guard* s) { if (d == s) return; g_reset(d); d->ptr = s->ptr; s->ptr = 0; }
+static void g_swap(struct guard* a, struct guard* b) { mptr t = a->ptr; a->ptr = b->ptr; b->ptr = t; }
+static void g_set_ptr(struct guard* g, mptr p) { g->ptr = p; g_protect(p); }
+static void g_acquire(struct guard* g, mptr* cell, int order) { g_reset(g); mptr v = A_LOAD(*cell, order); g->ptr = v; g_protect(v); }
+mptr* aie_cell; mptr aie_val; uint64_t aie_clock; _Bool aie_ok;       /* last acquire_if_equal (for the commit obligations) */
+static _Bool g_aie(struct guard* g, mptr* cell, mptr expected, int order) {
+  g_reset(g); mptr v = A_LOAD(*cell, order);
+  aie_cell = cell; aie_val = expected; aie_clock = xv_clock; aie_ok = (v == expected);
+  if (v != expected) return 0;
+  g->ptr = v; g_protect(v); return 1;
+}
+static void g_reclaim(struct guard* g) { size_t i = NIDX(MP_get(g->ptr)); if (MP_get(g->ptr) == 0 || i >= NP) { g_unsafe = 1; return; } if (g_retired[i] < 3) g_retired[i]++; g_reset(g); }
+#define G_INIT(g) ((g).ptr = 0)
+#define G_DTOR(g) g_reset(&(g))
+#define G_RESET(g) g_reset(&(g))
+#define G_COPY(d, s) g_copy(&(d), &(s))
+#define G_MOVE(d, s) g_move(&(d), &(s))
+#define G_SWAP(a, b) g_swap(&(a), &(b))
+#define G_SET_PTR(g, p) g_set_ptr(&(g), (p))
+#define G_ACQUIRE(g, cell, o) g_acquire(&(g), &(cell), (o))
+#define G_ACQUIRE_IF_EQUAL(g, cell, e, o) g_aie(&(g), &(cell), (e), (o))
+#define G_RECLAIM(g) g_reclaim(&(g))
+#define G_GET(g) MP_get((g).ptr)
+#define G_MARK(g) MP_mark((g).ptr)
+#define G_MP(g) ((g).ptr)
+#define G_BOOL(g) ((g).ptr != 0)
+
+/* find_info / iterator: default member initialisers, member-wise (defaulted) copy / move, destructors */
+#define FI_INIT(info, p) do { (info).prev = (p); (info).next = 0; G_INIT((info).cur); G_INIT((info).save); } while (0)
+#define FI_DTOR(info) do { g_reset(&(info).save); g_reset(&(info).cur); } while (0)
+#define IT_DTOR(it) FI_DTOR((it).info)
+static void fi_move(struct find_info* d, struct find_info* s) {
+  d->prev = s->prev; d->next = s->next; G_INIT(d->cur); G_INIT(d->save); g_move(&d->cur, &s->cur); g_move(&d->save, &s->save); }
+static void fi_copy(struct find_info* d, struct find_info* s) {
+  d->prev = s->prev; d->next = s->next; G_INIT(d->cur); G_INIT(d->save); g_copy(&d->cur, &s->cur); g_copy(&d->save, &s->save); }
+#define IT_FROM_INFO(ret, self, info) do { (ret)->list = (self); fi_move(&(ret)->info, &(info)); } while (0)
+#define IT_MOVE_CTOR(ret, src) do { (ret)->list = (src).list; fi_move(&(ret)->info, &(src).info); } while (0)
+#define IT_COPY_CTOR(ret, src) do { (ret)->list = (src).list; fi_copy(&(ret)->info, &(src).info); } while (0)
+static void hms_iter_ctor(struct iter* self, struct hms* list, mptr* start);
+#define IT_CONSTRUCT(ret, self, start) do { (ret)->info.prev = (mptr*)nondet_uptr_p(); (ret)->info.next = 0; G_INIT((ret)->info.cur); G_INIT((ret)->info.save); \
+    hms_iter_ctor((ret), (self), (start)); } while (0)
+mptr* nondet_uptr_p(void);
+#define XV_INIT_list(self, v) (self)->list = *(v)
+static _Bool hms_find(struct hms* self, hkey key, struct find_info* info_p, int* backoff_p);
+static void hms_end(struct hms* self, struct iter* ret);
+static _Bool hms_emplace_or_get(struct hms* self, struct iter* ret, hkey args);
+#define HMS_FIND(self, key, info, backoff) hms_find((self), (key), &(info), &(backoff))
+#define IT_FIND(l, key, info, backoff) hms_find(&(l), (key), &(info), &(backoff))
+
+/* ------------------------------------------------------------------ monitors of this handle's writes: legal steps of the algorithm */
+/* every successful CAS / store of the operation under test on a shared cell must be one of
+ *   LINK   cell (head or p->next, value v unmarked) : v -> n, n private, n->next == v, key(p) < key(n) < key(v)
+ *   MARK   cell c->next : v (unmarked) -> v|1
+ *   UNLINK cell (head or p->next, unmarked value c) : c -> MP_get(c->next), c->next marked; then c is retired by the same operation
+ * and the expected value must be the one the operation validated last on that cell.  */
+unsigned n_link, n_mark, n_unlink, n_illegal; size_t last_linked, last_marked, last_unlinked; _Bool last_link_validated, last_unlink_validated;
+mptr* last_cas_cell; _Bool mon_on;
+static void mon_store(const void* addr, mptr v, int o) {
+  if (!mon_on) return;
+  /* plain stores are only allowed on the private new node */
+  if (__CPROVER_POINTER_OBJECT(addr) == __CPROVER_POINTER_OBJECT(pool)) {
+    size_t i = __CPROVER_POINTER_OFFSET(addr) / sizeof(struct node);
+    if (i < NP && g_alloc[i] && !g_pub[i]) return;
+  }
+  n_illegal++;
+}
+static void mon_cas(const void* addr, mptr e, mptr d, _Bool ok, int o) {
+  if (!mon_on || !ok) return;
+  _Bool is_head = (addr == (const void*)&the_set.head);
+  size_t owner = NP;
+  if (!is_head) {
+    if (__CPROVER_POINTER_OBJECT(addr) != __CPROVER_POINTER_OBJECT(pool)) { n_illegal++; return; }
+    owner = __CPROVER_POINTER_OFFSET(addr) / sizeof(struct node);
+    if (owner >= NP || !g_alloc[owner] || !g_pub[owner]) { n_illegal++; return; }
+  }
+  size_t di = NIDX(MP_get(d)), ei = NIDX(MP_get(e));
+  if (!is_head && d == (e | 1) && MP_mark(e) == 0) { n_mark++; last_marked = owner; return; }               /* MARK */
+  if (MP_mark(e) != 0 || MP_mark(d) != 0) { n_illegal++; return; }
+  if (d != 0 && di < NP && g_alloc[di] && !g_pub[di]) {                                                       /* LINK */
+    _Bool okk = pool[di].next == e && (is_head || KEY_LESS(pool[owner].key, pool[di].key)) &&
+                (e == 0 || (ei < NP && g_alloc[ei] && KEY_LESS(pool[di].key, pool[ei].key)));
+    if (!okk) { n_illegal++; return; }
+    g_pub[di] = 1; n_link++; last_linked = di;
+    last_link_validated = (aie_cell == (mptr*)addr && aie_val == e && aie_ok);
+    return;
+  }
+  if (e != 0 && ei < NP && g_alloc[ei] && MP_mark(pool[ei].next) != 0 && d == MP_get(pool[ei].next)) {          /* UNLINK */
+    n_unlink++; last_unlinked = ei; return;
+  }
+  n_illegal++;
+}
+
+/* ------------------------------------------------------------------ representation invariant: builder */
+enum { K_FREE = 0, K_LINKED = 1, K_UNLINKED = 2 };
+unsigned char in_kind[L]; hkey in_key[L]; _Bool in_mark[L]; unsigned char in_unext[L]; _Bool in_retired[L];
+unsigned char pre_kind[NP]; hkey pre_key[NP]; mptr pre_next[NP]; unsigned char pre_retired[NP];
+static void build(void) {
+  mptr nxt = 0; hkey lastkey = 0; _Bool have = 0;
+  for (int i = L - 1; i >= 0; i--) {
+    in_kind[i] = nondet_uchar(); in_key[i] = nondet_int(); in_mark[i] = nondet_bool(); in_unext[i] = nondet_uchar(); in_retired[i] = nondet_bool();
+    XV_ASSUME(in_kind[i] <= K_UNLINKED && in_unext[i] <= NP);
+    pool[i].key = in_key[i]; g_cnt[i] = 0;
+    if (in_kind[i] == K_LINKED) {
+      XV_ASSUME(!have || in_key[i] < lastkey); lastkey = in_key[i]; have = 1;
+      pool[i].next = nxt | (mptr)in_mark[i]; nxt = NADDR(i); g_alloc[i] = 1; g_pub[i] = 1; g_retired[i] = 0;
+    } else if (in_kind[i] == K_UNLINKED) {      /* marked, spliced out earlier; its frozen next may point anywhere (even to re-used memory) */
+      pool[i].next = (in_unext[i] == NP ? (mptr)0 : NADDR(in_unext[i])) | (mptr)1; g_alloc[i] = 1; g_pub[i] = 1; g_retired[i] = in_retired[i];
+    } else {                                    /* never allocated, or retired and already freed: content is garbage */
+      pool[i].next = nondet_uptr(); g_alloc[i] = 0; g_pub[i] = nondet_bool(); g_retired[i] = 0;
+    }
+  }
+  pool[L].key = nondet_int(); pool[L].next = nondet_uptr(); g_alloc[L] = 0; g_pub[L] = 0; g_retired[L] = 0; g_cnt[L] = 0;
+  the_set.head = nxt; in_newslot = L;
+  g_unsafe = 0; g_new = 0; g_delete = 0; g_bad_delete = 0; n_link = n_mark = n_unlink = n_illegal = 0; mon_on = 1;
+  aie_cell = 0; aie_ok = 0;
+  xv_clock = nondet_u64(); XV_ASSUME(xv_clock < ((uint64_t)1 << 62));
+}
+static void snapshot(void) {
+  for (int i = 0; i < NP; i++) { pre_kind[i] = i < L ? in_kind[i] : K_FREE; pre_key[i] = pool[i].key; pre_next[i] = pool[i].next; pre_retired[i] = g_retired[i]; }
+}
+static _Bool pre_live(size_t i) { return i < NP && pre_kind[i] == K_LINKED && MP_mark(pre_next[i]) == 0; }
+static _Bool pre_has(hkey k) { _Bool r = 0; for (int i = 0; i < NP; i++) if (pre_live(i) && pre_key[i] == k) r = 1; return r; }
+/* a guard held by the handle under test: empty (idx == NP) or any published, not freed node */
+static void give_guard(struct guard* g, unsigned idx) {
+  XV_ASSUME(idx <= NP);
+  if (idx == NP) { g->ptr = 0; return; }
+  XV_ASSUME(idx < L && in_kind[idx] != K_FREE);
+  g->ptr = NADDR(idx); g_cnt[idx]++;
+}
+
+/* ------------------------------------------------------------------ representation invariant: checker */
+_Bool post_in[NP];
+static _Bool walk(void) {
+  _Bool ok = MP_mark(the_set.head) == 0; hkey last = 0; _Bool have = 0; mptr p = the_set.head;
+  for (int i = 0; i < NP; i++) post_in[i] = 0;
+  int step;
+  for (step = 0; step < NP + 1; step++) {
+    if (p == 0) break;
+    size_t i = NIDX(p);
+    if (i >= NP || post_in[i]) { ok = 0; break; }
+    if (!g_alloc[i] || !g_pub[i] || g_retired[i] != 0) ok = 0;
+    if (have && !(last < pool[i].key)) ok = 0;
+    post_in[i] = 1; last = pool[i].key; have = 1;
+    p = MP_get(pool[i].next);
+  }
+  if (p != 0) ok = 0;
+  return ok;
+}
+static _Bool post_live(size_t i) { return i < NP && post_in[i] && MP_mark(pool[i].next) == 0; }
+static _Bool post_has(hkey k) { _Bool r = 0; for (int i = 0; i < NP; i++) if (post_live(i) && pool[i].key == k) r = 1; return r; }
+/* first node of the current chain whose key is >= k (and which is not `except`); NP if none */
+static size_t first_ge(hkey k, size_t except) {
+  size_t best = NP;
+  for (int i = 0; i < NP; i++) if (post_in[i] && i != except && !KEY_LESS(pool[i].key, k) && (best == NP || KEY_LESS(pool[i].key, pool[best].key))) best = i;
+  return best;
+}
+static unsigned guards_on(struct find_info* a, size_t j) { return (G_GET(a->cur) == NADDR(j)) + (G_GET(a->save) == NADDR(j)); }
+/* frame for an arbitrary node j: what a helping traversal may do to nodes other than the one an operation targets */
+static _Bool frame_ok(size_t j) {
+  if (pool[j].key != pre_key[j] && pre_kind[j] != K_FREE) return 0;
+  if (pre_kind[j] == K_LINKED && MP_mark(pre_next[j]) == 0) return post_in[j] && MP_mark(pool[j].next) == 0 && g_retired[j] == 0 && g_alloc[j];
+  if (pre_kind[j] == K_LINKED) return MP_mark(pool[j].next) != 0 && g_alloc[j] &&
+        ((post_in[j] && g_retired[j] == 0) || (!post_in[j] && g_retired[j] == 1 && pool[j].next == pre_next[j]));
+  if (pre_kind[j] == K_UNLINKED) return !post_in[j] && pool[j].next == pre_next[j] && g_retired[j] == pre_retired[j] && g_alloc[j];
+  return !post_in[j] && !g_alloc[j];
+}
+/* iterator invariant: what any sequence of operations on this and other handles can leave in an iterator */
+static _Bool iter_inv(struct iter* it) {
+  mptr c = G_GET(it->info.cur), s = G_GET(it->info.save);
+  if (it->list != &the_set || G_MARK(it->info.cur) || G_MARK(it->info.save)) return 0;
+  if (c != 0 && !(NIDX(c) < NP && g_alloc[NIDX(c)] && g_pub[NIDX(c)])) return 0;
+  if (s != 0 && !(NIDX(s) < NP && g_alloc[NIDX(s)] && g_pub[NIDX(s)])) return 0;
+  if (s == 0 ? (it->info.prev != &the_set.head && !(c == 0 && it->info.prev == 0)) : (it->info.prev != &pool[NIDX(s)].next)) return 0;
+  if (s != 0 && c != 0 && !KEY_LESS(pool[NIDX(s)].key, pool[NIDX(c)].key)) return 0;
+  return 1;
+}
+
+#ifdef XV_INT
+#include "env.h"
+#endif
+#include "lowered.h"
+
+/* ================================================================== SEQ harnesses */
+hkey in_k; unsigned in_start, in_cur; size_t in_j;
+
+/* find(key, info, backoff) from any well-formed list and any info a caller can pass: start at head, or at a guarded node `save`
+ * with key(save) < key (linked, or marked, or already unlinked); info.cur holds any leftover guard */
+void h_find(void) {
+  build(); in_k = nondet_int(); in_start = nondet_uint(); in_cur = nondet_uint(); in_j = nondet_size(); XV_ASSUME(in_j < NP);
+  struct find_info info; int bo = 0;
+  info.next = nondet_uptr();
+  give_guard(&info.save, in_start); give_guard(&info.cur, in_cur);
+  if (in_start == NP) info.prev = &the_set.head; else { info.prev = &pool[in_start].next; XV_ASSUME(KEY_LESS(in_key[in_start], in_k)); }
+  snapshot();
+  _Bool from_head = in_start == NP || MP_mark(pre_next[in_start]) != 0;
+  _Bool r = hms_find(&the_set, in_k, &info, &bo);
+  _Bool wf = walk();
+  size_t c = NIDX(G_GET(info.cur)), s = NIDX(G_GET(info.save));
+  XV_OBL("hms.find.iff_live", r == pre_has(in_k));
+  if (r) XV_OBL("hms.find.iff_live", G_GET(info.cur) != 0 && c < NP && post_live(c) && pool[c].key == in_k && pre_live(c));
+  XV_OBL("hms.find.position", wf);
+  XV_OBL("hms.find.position", G_MARK(info.cur) == 0 && *info.prev == G_GET(info.cur));
+  XV_OBL("hms.find.position", (G_GET(info.cur) == 0 ? NP : c) == first_ge(in_k, NP));
+  XV_OBL("hms.find.position", G_GET(info.cur) == 0 ? info.next == 0 : info.next == pool[c].next && MP_mark(info.next) == 0);
+  XV_OBL("hms.find.position", G_GET(info.save) == 0 ? (info.prev == &the_set.head && from_head)
+                                                     : (s < NP && info.prev == &pool[s].next && post_live(s) && KEY_LESS(pool[s].key, in_k)));
+  /* marked nodes met on the way (all nodes in front of cur when the walk started at head, those behind save otherwise) are gone */
+  if (post_in[in_j] && KEY_LESS(pool[in_j].key, in_k) && (from_head || KEY_LESS(in_key[in_start], pool[in_j].key)))
+    XV_OBL("hms.find.position", MP_mark(pool[in_j].next) == 0);
+  XV_OBL("hms.find.frame", frame_ok(in_j) && g_new == 0 && g_delete == 0 && n_link == 0 && n_mark == 0 && n_illegal == 0);
+  XV_OBL("hms.find.retire_once", g_retired[in_j] <= 1 && (g_retired[in_j] == pre_retired[in_j] || (pre_kind[in_j] == K_LINKED && !post_in[in_j])));
+  XV_OBL("hms.find.guards", g_cnt[in_j] == (int)guards_on(&info, in_j));
+  XV_OBL("hms.find.safe", !g_unsafe);
+  if (r) XV_CANARY("find.true");
+  if (!r && G_GET(info.cur) == 0) XV_CANARY("find.false_end");
+  if (!r && G_GET(info.cur) != 0) XV_CANARY("find.false_greater");
+  if (n_unlink == 2) XV_CANARY("find.unlinked_two");
+  if (in_start != NP && from_head) XV_CANARY("find.restart_from_head");
+  if (in_start != NP && !from_head) XV_CANARY("find.mid_start");
+  if (in_start != NP && in_kind[in_start] == K_UNLINKED) XV_CANARY("find.start_unlinked");
+}
+
+/* no guard of a finished operation is left behind */
+static _Bool no_guards(size_t j) { return g_cnt[j] == 0; }
+/* the unique live node with key k in the pre-state, NP if none */
+static size_t pre_node_of(hkey k) { size_t r = NP; for (int i = 0; i < NP; i++) if (pre_live(i) && pre_key[i] == k) r = i; return r; }
+
+void h_contains(void) {
+  build(); in_k = nondet_int(); in_j = nondet_size(); XV_ASSUME(in_j < NP);
+  snapshot();
+  _Bool r = hms_contains(&the_set, in_k);
+  _Bool wf = walk();
+  XV_OBL("hms.contains.iff_live", r == pre_has(in_k));
+  XV_OBL("hms.contains.frame", wf && frame_ok(in_j) && g_new == 0 && n_link == 0 && n_mark == 0 && n_illegal == 0 && post_has(in_k) == pre_has(in_k));
+  XV_OBL("hms.contains.guards", no_guards(in_j));
+  XV_OBL("hms.contains.safe", !g_unsafe);
+  if (r) XV_CANARY("contains.true"); else XV_CANARY("contains.false");
+  if (n_unlink) XV_CANARY("contains.helped");
+}
+
+void h_find_key(void) {
+  build(); in_k = nondet_int(); in_j = nondet_size(); XV_ASSUME(in_j < NP);
+  snapshot();
+  struct iter it;
+  hms_find_key(&the_set, &it, in_k);
+  _Bool wf = walk(); size_t t = pre_node_of(in_k);
+  XV_OBL("hms.find_key.iff_live", (G_GET(it.info.cur) != 0) == pre_has(in_k));
+  if (t != NP) XV_OBL("hms.find_key.iff_live", G_GET(it.info.cur) == NADDR(t) && post_live(t) && *it.info.prev == NADDR(t));
+  XV_OBL("hms.find_key.iterator", wf && iter_inv(&it) && (t != NP || (it.info.prev == 0 && G_GET(it.info.save) == 0)));
+  XV_OBL("hms.find_key.frame", frame_ok(in_j) && g_new == 0 && n_link == 0 && n_mark == 0 && n_illegal == 0);
+  XV_OBL("hms.find_key.guards", g_cnt[in_j] == (int)guards_on(&it.info, in_j));
+  XV_OBL("hms.find_key.safe", !g_unsafe);
+  if (t != NP) XV_CANARY("find_key.found"); else XV_CANARY("find_key.end");
+}
+
+void h_begin(void) {
+  build(); in_j = nondet_size(); XV_ASSUME(in_j < NP);
+  snapshot();
+  struct iter it, e;
+  hms_begin(&the_set, &it);
+  hms_end(&the_set, &e);
+  _Bool wf = walk();
+  XV_OBL("hms.iter.begin.first", wf && iter_inv(&it) && it.info.prev == &the_set.head && G_GET(it.info.save) == 0 && it.info.cur.ptr == the_set.head);
+  XV_OBL("hms.iter.begin.first", iter_inv(&e) && G_GET(e.info.cur) == 0 && G_GET(e.info.save) == 0);
+  XV_OBL("hms.iter.begin.frame", frame_ok(in_j) && (pre_kind[in_j] != K_LINKED || post_in[in_j]) && n_unlink == 0 && n_link == 0 && n_mark == 0 && n_illegal == 0);
+  XV_OBL("hms.iter.begin.guards", g_cnt[in_j] == (int)guards_on(&it.info, in_j));
+  XV_OBL("hms.iter.begin.safe", !g_unsafe);
+  if (the_set.head == 0) XV_CANARY("begin.empty"); else XV_CANARY("begin.nonempty");
+}
+
+hkey in_gk;
+void h_emplace_or_get(void) {
+  build(); in_k = nondet_int(); in_gk = nondet_int(); in_j = nondet_size(); XV_ASSUME(in_j < L);
+  snapshot();
+  struct iter it;
+  _Bool r = hms_emplace_or_get(&the_set, &it, in_k);
+  _Bool wf = walk(); size_t t = pre_node_of(in_k);
+  XV_OBL("hms.insert.iff_absent", r == !pre_has(in_k));
+  XV_OBL("hms.insert.iff_absent", wf && post_has(in_gk) == (pre_has(in_gk) || in_gk == in_k));
+  XV_OBL("hms.insert.iff_absent", frame_ok(in_j) && n_mark == 0 && n_illegal == 0 && g_new == 1 && !g_bad_delete);
+  if (r) {
+    XV_OBL("hms.insert.iff_absent", post_live(L) && pool[L].key == in_k && g_pub[L] && g_alloc[L] && g_delete == 0 && n_link == 1 && last_linked == L && last_link_validated);
+    XV_OBL("hms.insert.iterator", G_GET(it.info.cur) == NADDR(L) && *it.info.prev == NADDR(L));
+    XV_CANARY("insert.true");
+  } else {
+    XV_OBL("hms.insert.iff_absent", !g_alloc[L] && !post_in[L] && g_delete == 1 && n_link == 0);
+    XV_OBL("hms.insert.iterator", t != NP && G_GET(it.info.cur) == NADDR(t) && *it.info.prev == NADDR(t));
+    XV_CANARY("insert.false");
+  }
+  XV_OBL("hms.insert.iterator", iter_inv(&it));
+  XV_OBL("hms.insert.guards", g_cnt[in_j] == (int)guards_on(&it.info, in_j) && g_cnt[L] == (int)guards_on(&it.info, L));
+  XV_OBL("hms.insert.safe", !g_unsafe);
+  if (r && it.info.prev == &the_set.head) XV_CANARY("insert.at_head");
+  if (r && pool[L].next == 0 && it.info.prev != &the_set.head) XV_CANARY("insert.at_tail");
+  if (n_unlink) XV_CANARY("insert.helped");
+}
+
+void h_emplace(void) {
+  build(); in_k = nondet_int(); in_gk = nondet_int(); in_j = nondet_size(); XV_ASSUME(in_j < L);
+  snapshot();
+  _Bool r = hms_emplace(&the_set, in_k);
+  _Bool wf = walk();
+  XV_OBL("hms.insert.iff_absent", r == !pre_has(in_k) && wf && post_has(in_gk) == (pre_has(in_gk) || in_gk == in_k) && frame_ok(in_j));
+  XV_OBL("hms.insert.iff_absent", r ? (post_live(L) && pool[L].key == in_k && g_delete == 0) : (!g_alloc[L] && g_delete == 1 && !g_bad_delete));
+  XV_OBL("hms.insert.guards", no_guards(in_j) && no_guards(L));
+  XV_OBL("hms.insert.safe", !g_unsafe);
+  if (r) XV_CANARY("emplace.true"); else XV_CANARY("emplace.false");
+}
+
+void h_erase(void) {
+  build(); in_k = nondet_int(); in_gk = nondet_int(); in_j = nondet_size(); XV_ASSUME(in_j < NP);
+  snapshot();
+  _Bool r = hms_erase(&the_set, in_k);
+  _Bool wf = walk(); size_t t = pre_node_of(in_k);
+  XV_OBL("hms.erase.iff_present", r == pre_has(in_k));
+  XV_OBL("hms.erase.iff_present", wf && post_has(in_gk) == (pre_has(in_gk) && in_gk != in_k));
+  if (r) {
+    XV_OBL("hms.erase.iff_present", n_mark == 1 && last_marked == t && pool[t].next == (pre_next[t] | 1) && pool[t].key == in_k);
+    XV_OBL("hms.erase.unlinked_retired", !post_in[t] && g_retired[t] == 1 && g_alloc[t]);
+    XV_CANARY("erase.true");
+  } else { XV_OBL("hms.erase.iff_present", n_mark == 0); XV_CANARY("erase.false"); }
+  if (in_j != t) XV_OBL("hms.erase.frame", frame_ok(in_j));
+  XV_OBL("hms.erase.frame", g_new == 0 && g_delete == 0 && n_link == 0 && n_illegal == 0);
+  XV_OBL("hms.erase.guards", no_guards(in_j));
+  XV_OBL("hms.erase.safe", !g_unsafe);
+#ifdef SECOND_ERASE
+  /* a second erase of the same key on the resulting state fails and changes nothing */
+  unsigned m1 = n_mark, u1 = n_unlink; mptr h1 = the_set.head; mptr nx = pool[in_j].next; unsigned char r1 = g_retired[in_j];
+  _Bool r2 = hms_erase(&the_set, in_k);
+  XV_OBL("hms.erase.second_fails", !r2 && n_mark == m1 && pool[in_j].next == nx && g_retired[in_j] == r1 && !g_unsafe && no_guards(in_j));
+  if (r) XV_CANARY("erase.second_after_true");
+#endif
+  if (n_unlink >= 2) XV_CANARY("erase.helped");
+}
+
+/* ---------------- iterators: the pre-state is any (prev, save, cur) another handle can leave behind, see iter_inv */
+struct iter g_it;
+static void any_iter(struct iter* it, _Bool need_cur) {
+  in_start = nondet_uint(); in_cur = nondet_uint();
+  it->list = &the_set; it->info.next = nondet_uptr();
+  give_guard(&it->info.save, in_start); give_guard(&it->info.cur, in_cur);
+  if (need_cur) XV_ASSUME(in_cur != NP);
+  if (in_start == NP) it->info.prev = &the_set.head; else it->info.prev = &pool[in_start].next;
+  if (in_start != NP && in_cur != NP) XV_ASSUME(KEY_LESS(in_key[in_start], in_key[in_cur]));
+}
+
+void h_iter_inc(void) {
+  build(); in_j = nondet_size(); XV_ASSUME(in_j < NP);
+  any_iter(&g_it, 1);
+  snapshot();
+  size_t c0 = in_cur; hkey k0 = pre_key[c0]; _Bool c0_marked = MP_mark(pre_next[c0]) != 0;
+  XV_ASSUME(iter_inv(&g_it));
+  hms_iter_inc(&g_it);
+  _Bool wf = walk();
+  size_t nc = G_GET(g_it.info.cur) == 0 ? NP : NIDX(G_GET(g_it.info.cur));
+  XV_OBL("hms.iter.inc.next_live", wf && nc == first_ge(k0, c0));
+  if (c0_marked && nc != NP) XV_OBL("hms.iter.inc.next_live", post_live(nc));
+  if (pre_live(in_j) && KEY_LESS(k0, pre_key[in_j])) XV_OBL("hms.iter.inc.no_skip", nc != NP && !KEY_LESS(pool[in_j].key, pool[nc].key));
+  XV_OBL("hms.iter.inc.progress", nc != c0 && (nc == NP || KEY_LESS(k0, pool[nc].key) || (c0_marked && pool[nc].key == k0)));
+  XV_OBL("hms.iter.inc.position", iter_inv(&g_it) && *g_it.info.prev == G_GET(g_it.info.cur));
+  XV_OBL("hms.iter.inc.frame", frame_ok(in_j) && g_new == 0 && g_delete == 0 && n_link == 0 && n_mark == 0 && n_illegal == 0);
+  XV_OBL("hms.iter.inc.guards", g_cnt[in_j] == (int)guards_on(&g_it.info, in_j));
+  XV_OBL("hms.iter.inc.safe", !g_unsafe);
+  if (!c0_marked && nc != NP) XV_CANARY("inc.fast");
+  if (!c0_marked && nc != NP && !post_live(nc)) XV_CANARY("inc.fast_to_marked_successor");
+  if (!c0_marked && nc == NP) XV_CANARY("inc.fast_to_end");
+  if (c0_marked && in_kind[c0] == K_LINKED) XV_CANARY("inc.cur_marked_linked");
+  if (c0_marked && in_kind[c0] == K_UNLINKED) XV_CANARY("inc.cur_unlinked");
+  if (c0_marked && nc != NP && pool[nc].key == k0) XV_CANARY("inc.key_reinserted");
+  if (c0_marked && in_start != NP && MP_mark(pre_next[in_start])) XV_CANARY("inc.save_marked");
+  if (c0_marked && in_start != NP && !MP_mark(pre_next[in_start]) && pre_next[in_start] != NADDR(c0)) XV_CANARY("inc.pred_changed");
+}
+
+void h_erase_it(void) {
+  build(); in_gk = nondet_int(); in_j = nondet_size(); XV_ASSUME(in_j < NP);
+  any_iter(&g_it, 1);
+  snapshot();
+  size_t c0 = in_cur; hkey k0 = pre_key[c0]; _Bool c0_marked = MP_mark(pre_next[c0]) != 0;
+  XV_ASSUME(iter_inv(&g_it));
+  struct iter pos, ret;
+  IT_COPY_CTOR(&pos, g_it);                  /* erase(iterator pos) takes its argument by value */
+  hms_erase_it(&the_set, &ret, pos);
+  _Bool wf = walk();
+  size_t nc = G_GET(ret.info.cur) == 0 ? NP : NIDX(G_GET(ret.info.cur));
+  XV_OBL("hms.iter.erase.exact", wf && MP_mark(pool[c0].next) != 0 && MP_get(pool[c0].next) == MP_get(pre_next[c0]) && pool[c0].key == k0);
+  XV_OBL("hms.iter.erase.exact", n_mark == (c0_marked ? 0 : 1) && (c0_marked || last_marked == c0));
+  XV_OBL("hms.iter.erase.exact", post_has(in_gk) == (pre_has(in_gk) && !(pre_live(c0) && in_gk == k0)));
+  XV_OBL("hms.iter.erase.unlinked_retired", !post_in[c0] && g_alloc[c0] && g_retired[c0] == (pre_kind[c0] == K_LINKED ? 1 : pre_retired[c0]));
+  XV_OBL("hms.iter.erase.next", nc == first_ge(k0, c0) && iter_inv(&ret) && *ret.info.prev == G_GET(ret.info.cur));
+  if (pre_live(in_j) && KEY_LESS(k0, pre_key[in_j])) XV_OBL("hms.iter.erase.next", nc != NP && !KEY_LESS(pool[in_j].key, pool[nc].key));
+  if (in_j != c0) XV_OBL("hms.iter.erase.frame", frame_ok(in_j));
+  XV_OBL("hms.iter.erase.frame", g_new == 0 && g_delete == 0 && n_link == 0 && n_illegal == 0);
+  XV_OBL("hms.iter.erase.guards", g_cnt[in_j] == (int)(guards_on(&g_it.info, in_j) + guards_on(&ret.info, in_j)));
+  XV_OBL("hms.iter.erase.safe", !g_unsafe);
+  if (!c0_marked && n_unlink == 1) XV_CANARY("erase_it.direct");
+  if (!c0_marked && n_unlink >= 2) XV_CANARY("erase_it.refind");
+  if (c0_marked && in_kind[c0] == K_LINKED) XV_CANARY("erase_it.cur_marked_linked");
+  if (in_kind[c0] == K_UNLINKED) XV_CANARY("erase_it.cur_unlinked");
+  if (nc == NP) XV_CANARY("erase_it.to_end");
+  if (nc != NP && !post_live(nc)) XV_CANARY("erase_it.to_marked_successor");
+}
+
+/* defaulted copy / move of an iterator = member-wise guard copy / move: both iterators are usable and independently protected */
+void h_iter_copy(void) {
+  build(); in_j = nondet_size(); XV_ASSUME(in_j < NP);
+  any_iter(&g_it, 0);
+  snapshot(); XV_ASSUME(iter_inv(&g_it));
+  struct iter a, b;
+  IT_COPY_CTOR(&a, g_it);
+  XV_OBL("hms.iter.copy.independent", iter_inv(&a) && a.info.cur.ptr == g_it.info.cur.ptr && a.info.prev == g_it.info.prev && g_cnt[in_j] == (int)(2 * guards_on(&g_it.info, in_j)));
+  IT_MOVE_CTOR(&b, a);
+  XV_OBL("hms.iter.copy.independent", iter_inv(&b) && b.info.cur.ptr == g_it.info.cur.ptr && G_GET(a.info.cur) == 0 && G_GET(a.info.save) == 0 && g_cnt[in_j] == (int)(2 * guards_on(&g_it.info, in_j)));
+  if (in_cur != NP) {
+    /* advance the copy, then the original: the original is still dereferenceable and advances correctly from what the copy left behind */
+    hms_iter_inc(&b);
+    XV_OBL("hms.iter.copy.independent", !g_unsafe && g_it.info.cur.ptr == NADDR(in_cur) && g_alloc[in_cur] && g_cnt[in_cur] >= 1 && iter_inv(&g_it));
+    XV_CANARY("copy.advanced");
+  }
+  IT_DTOR(b); IT_DTOR(a);
+  XV_OBL("hms.iter.copy.independent", g_cnt[in_j] == (int)guards_on(&g_it.info, in_j));
+}
